@@ -8,11 +8,14 @@ Decided clauses:
   R3  the two arms of Hash for JsStr feed the hasher the same method sequence (write_usize, write_u16 per unit);
       the mixed arm of Ord uses the code-unit iterators
   R4  every literal handed to JsStr::latin1 in the static string table is ASCII
+  R5  a Latin-1 payload is never decoded as UTF-8: a byte slice taken from JsStrVariant::Latin1 / JsStr::as_latin1 reaches
+      str::from_utf8 / from_utf8_unchecked / String::from_utf8(_lossy) only on the true side of an is_ascii() test of
+      that slice (boa_string and boa_engine) — the reverse direction of R2
 """
 import re
 from facts import (cn, callee, cname, roots, op_local, taint, arg_hits, place_fields, bool_switch, bool_origin)
 
-CRATES = ["boa_string"]
+CRATES = ["boa_string", "boa_engine"]
 EXPLANATION = (
     "Dominance and provenance rules over the MIR of boa_string: every PartialEq::eq impl (zip sites), every "
     "str::as_bytes() site and its consumers, the Hash/Ord impls of JsStr and the constant initialisers of the static "
@@ -225,8 +228,77 @@ def _operands(r):
     return []
 
 
+UTF8_DECODERS = ("core::str::converts::from_utf8", "core::str::converts::from_utf8_unchecked",
+                 "core::str::converts::from_utf8_mut", "core::str::converts::from_utf8_unchecked_mut",
+                 "alloc::string::String::from_utf8", "alloc::string::String::from_utf8_lossy",
+                 "alloc::string::String::from_utf8_unchecked", "alloc::string::String::from_utf8_lossy_owned",
+                 "core::str::<impl str>::from_utf8", "core::str::<impl str>::from_utf8_unchecked")
+
+
+def _latin1_rooted(f, l, depth=0):
+    for r in roots(f, l):
+        if r[0] == "place":
+            if any(isinstance(e, str) and e == "v:Latin1" for e in r[1]):
+                return True
+            if depth < 4 and r[1][0] != l and _latin1_rooted(f, r[1][0], depth + 1):
+                return True
+        elif r[0] == "call":
+            c = cn(r[2])
+            if c.endswith("::as_latin1"):
+                return True
+            # Option/Result adapters and slicing keep the payload
+            if depth < 4 and c.split("::")[-1] in ("unwrap", "expect", "unwrap_unchecked", "index", "get", "get_unchecked",
+                                                     "as_ref", "deref", "as_slice", "to_vec", "into", "from", "clone"):
+                for a in r[2]["args"][:1]:
+                    la = op_local(a)
+                    if la is not None and _latin1_rooted(f, la, depth + 1):
+                        return True
+    return False
+
+
+def r5(db, rep):
+    rep.rule("R5", "a Latin-1 payload reaches a UTF-8 decoder only on the true side of an is_ascii() test of that payload")
+    n = 0
+    for f in db.fns.values():
+        if f.krate not in ("boa_string", "boa_engine") or not f.mentions("from_utf8"):
+            continue
+        if "/tests" in f.span or f.span.endswith("tests.rs") or "::tests::" in f.id:
+            continue
+        k = 0
+        for b, t in f.calls():
+            c = (t.get("rf") or callee(t) or "")
+            if not any(c.startswith(d) for d in UTF8_DECODERS) or not t["args"]:
+                continue
+            l = op_local(t["args"][0])
+            if l is None or not _latin1_rooted(f, l):
+                continue
+            n += 1
+            ok = False
+            for sb in f.dominators().get(b, ()):
+                bs = bool_switch(f, sb)
+                if not bs:
+                    continue
+                fl, fb, tb = bs
+                pol, root = bool_origin(f, fl)
+                if root[0] != "call" or not cn(root[2]).endswith("is_ascii") or not root[2]["args"]:
+                    continue
+                la = op_local(root[2]["args"][0])
+                if la is None or not _latin1_rooted(f, la):
+                    continue
+                good, badside = (tb, fb) if pol else (fb, tb)
+                if b in f.reach_from([good], avoid={sb}) and b not in f.reach_from([badside], avoid={sb}):
+                    ok = True
+            rep.ob("R5", f"{cname(f.id)}:latin1-to-utf8:{k}", ok,
+                   f"{cname(f.id)} decodes a Latin-1 payload as UTF-8 ({f.loc(b)}) without an is_ascii() guard: code units "
+                   f">= 0x80 that happen to form a UTF-8 sequence collapse into another character, so the same code-unit "
+                   f"sequence behaves differently in a Latin-1 and a UTF-16 buffer", loc=f.loc(b))
+            k += 1
+    rep.floor("R5", "Latin-1 payloads handed to a UTF-8 decoder", n, 1)
+
+
 def run(db, rep, tier):
     r1(db, rep)
     r2(db, rep)
     r3(db, rep)
     r4(db, rep)
+    r5(db, rep)
